@@ -28,6 +28,7 @@ one slug; it never decides pass/fail.
 """
 from __future__ import annotations
 
+import os as _os
 import itertools
 import json
 import os
@@ -41,6 +42,7 @@ from contextlib import contextmanager
 
 from bounded.common import JOBS, bitem, chunked, pmap
 
+_REPO = _os.environ.get('VERIF_REPO', '/repo')  # the tree under check (a scratch copy when evaluations run in parallel)
 PROP = 'C13'
 ALPHA = ('a', "'", '"', '\\', '/', '`', '\n', '{', '}')
 RAIL_EXTRA = ('＄', '世', 'é', '\t', '─', 'a b', 'ab' * 12)
@@ -549,9 +551,9 @@ def antlr_cases():
 
 def file_cases():
     out = []
-    for label, path in (('tatsu-ebnf', '/repo/tatsu/_tatsu.ebnf'), ('calc-ebnf', '/repo/grammar/calc.ebnf'),
-                        ('antlr-tatsu', '/repo/tatsu/g2e/antlr.tatsu'), ('calc-model', '/repo/grammar/calc_model.tatsu'),
-                        ('calc-json', '/repo/grammar/calc.json'), ('tatsu-json', '/repo/grammar/tatsu.json')):
+    for label, path in (('tatsu-ebnf', _REPO + '/tatsu/_tatsu.ebnf'), ('calc-ebnf', _REPO + '/grammar/calc.ebnf'),
+                        ('antlr-tatsu', _REPO + '/tatsu/g2e/antlr.tatsu'), ('calc-model', _REPO + '/grammar/calc_model.tatsu'),
+                        ('calc-json', _REPO + '/grammar/calc.json'), ('tatsu-json', _REPO + '/grammar/tatsu.json')):
         if os.path.exists(path):
             out.append(dict(group='files', kind=label, ctx='', via='jsonfile' if path.endswith('.json') else 'file', text=path, start=None))
     return out
